@@ -267,41 +267,9 @@ func (k *kase) inexact() bool {
 	return false
 }
 
-// coarse description of an accepted case for an unlisted failure
+// coarse description of an accepted case for an unlisted failure (the replay file has
+// the whole case; the signature only groups failures)
 func (k *kase) features() string {
-	m := map[string]bool{}
-	add := func(ts []tok) {
-		for _, t := range ts {
-			switch t.K {
-			case "lit":
-				m["lit-"+t.O] = true
-			case "un", "bin":
-				m[t.K+t.O] = true
-			case "conv":
-				m["conv-"+kindClass(t.O)] = true
-			default:
-				m[t.K] = true
-			}
-		}
-	}
-	add(k.Toks)
-	for _, s := range k.Specs {
-		add(s.Toks)
-		if s.Impl {
-			m["implicit"] = true
-		}
-		if s.Blank {
-			m["blank"] = true
-		}
-		if s.Typ != "untyped" {
-			m["spec-"+kindClass(s.Typ)] = true
-		}
-	}
-	var r []string
-	for f := range m {
-		r = append(r, f)
-	}
-	sort.Strings(r)
 	s := k.Tier
 	if k.Ctx != "" {
 		s += " " + k.Ctx + " " + kindClass(k.Kind)
@@ -309,7 +277,10 @@ func (k *kase) features() string {
 	if k.Place != "" {
 		s += " " + k.Place
 	}
-	return s + " {" + strings.Join(r, " ") + "} -> " + k.Res.C.Class + "/" + kindClass(k.Res.C.Typ)
+	if n := len(k.Toks); n > 0 {
+		s += " root " + k.Toks[n-1].K + k.Toks[n-1].O
+	}
+	return s + " -> " + k.Res.C.Class + "/" + kindClass(k.Res.C.Typ)
 }
 
 func isCmp(o string) bool {
